@@ -44,4 +44,8 @@ META["C12"] = {
     "text": "Bounded symbolic model checking in integer-arithmetic mode: Tx.Fund with a supplier closure whose behaviour on each of up to CALLS calls is chosen by the solver (exhausted / error / empty batch / 1..2 UTXOs with symbolic fields); every clause of the statement is asserted against ghost state kept by the closure.",
     "note": "Trusted: gosym (Int mode, closures), z3. Supplier histories longer than CALLS calls are outside the claim.",
 }
+META["C15"] = {
+    "text": "Bounded symbolic model checking with base58 as an opaque injective encoding: for every 20-byte hash / 33-byte key and both networks, derived addresses decode to the same hash and every constructor yields the canonical 25-byte script (hash/address recovered); for every 24/25/26-byte payload the solver decides that a wrong length, unsupported version or wrong checksum is rejected by NewAddressFromString / NewP2PKHFromAddress. Every single-character edit (substitute, insert, delete, transpose; all printable characters, all positions) of concrete valid addresses is decided against an independent Base58Check reference decoder; there the engine forks over position and character and executes the real code with real SHA-256.",
+    "note": "Trusted: gosym, z3; base58.Encode opaque+injective with Decode its inverse (go-bk radix arithmetic not verified; real algorithm used on concrete strings); SHA-256 uninterpreted on symbolic input. Known finding (not repairable with the pinned tests unedited): the address checksum is never verified by NewAddressFromString.",
+}
 NOT_APPLICABLE = {}
